@@ -53,8 +53,8 @@ SHAPES = {
     "absolute_value": [((),), ((3,),), ((2, 3),), ((2, 3, 2),)],
     "kronecker_prod": [((2, 2), (2, 2)), ((1, 3), (2, 1)), ((2, 3), (3, 2)), ((1, 1), (1, 1))],
     "sigmoid": [((),), ((3,),), ((2, 3),), ((2, 2, 3),)],
-    "scalar_divide": [((3,), ()), ((2, 3), ()), ((3,), (3,)), ((), ()), ((2, 3), (2, 3))],
-    "inverse": [((),), ((3,),), ((2, 3),)],
+    "scalar_divide": [((3,), ()), ((2, 3), ()), ((3,), (3,)), ((), ()), ((2, 3), (2, 3)), ((3, 3), (3, 3)), ((2, 2, 2), (2, 2, 2))],
+    "inverse": [((),), ((3,),), ((2, 3),), ((3, 3),), ((2, 2, 3),), ((4, 1),)],
     "norm_sqr": [((4,),), ((),), ((1,),)],
     "norm": [((4,),), ((),), ((1,),)],
     "make_complex": [((),), ((3,),), ((2, 3),), ((2, 3, 2),)],
